@@ -144,6 +144,9 @@ class Obj(Value):
 
 
 class DictV(Value):
+    default_factory = None
+    open = False            # keys that are not followed were looked up / stored (a defaultdict filled under unknown keys): its key set is unknown
+
     def __init__(self):
         self.entries = []       # (key value, value)
 
@@ -485,6 +488,9 @@ class Interp:
             return o
         if isinstance(f, ExtRef):
             self.emit('extcall', name=f.dotted, args=list(args), kwargs=dict(kwargs), node=node)
+            r = self._concrete_ext(f.dotted, args, kwargs)
+            if r is not None:
+                return r
             r = self.dom.call_ext(f.dotted, args, kwargs, node)
             if r is not None:
                 return r
@@ -502,6 +508,36 @@ class Interp:
             if r is not None:
                 return r
         return Unknown('call of %r' % (f,))
+
+    def _concrete_ext(self, dotted, args, kwargs):
+        """numpy bookkeeping functions on fully concrete integer sequences (request lists, orders): evaluated exactly"""
+        if not dotted.startswith('numpy.') or not args:
+            return None
+        last = dotted.rsplit('.', 1)[-1]
+        if last not in ('abs', 'absolute', 'unique', 'arange', 'sort', 'max', 'min', 'amax', 'amin'):
+            return None
+
+        def seq(v):
+            if isinstance(v, Tup) and v.items and all(isinstance(x, Const) and isinstance(x.v, int) and not isinstance(x.v, bool) for x in v.items):
+                return [x.v for x in v.items]
+            return None
+        if last == 'arange':
+            if all(isinstance(a, Const) and isinstance(a.v, int) and not isinstance(a.v, bool) for a in args) and set(kwargs) <= {'dtype'} \
+                    and not (len(args) == 1 and args[0].v > 64):
+                return Tup([Const(k) for k in range(*[a.v for a in args])], 'list')
+            return None
+        if kwargs or len(args) != 1:
+            return None
+        xs = seq(args[0])
+        if xs is None:
+            return None
+        if last in ('abs', 'absolute'):
+            return Tup([Const(abs(k)) for k in xs], 'list')
+        if last == 'unique':
+            return Tup([Const(k) for k in sorted(set(xs))], 'list')
+        if last == 'sort':
+            return Tup([Const(k) for k in sorted(xs)], 'list')
+        return Const(max(xs) if last in ('max', 'amax') else min(xs))
 
     def _generic_ext(self, dotted, args, kwargs, node):
         if dotted in ('math.ceil', 'math.floor') and args and isinstance(args[0], Const) and isinstance(args[0].v, (int, float)):
@@ -521,6 +557,10 @@ class Interp:
         if dotted == 'warnings.warn':
             self.emit('warn', node=node)
             return Const(None)
+        if dotted == 'collections.defaultdict' and len(args) <= 1 and not kwargs:
+            d = DictV()
+            d.default_factory = args[0] if args else None
+            return d
         return None
 
     def call_method(self, recv, name, args, kwargs, node):
@@ -605,6 +645,13 @@ class Interp:
             if it is not None:
                 return Tup(list(reversed(it)))
             return Unknown('reversed')
+        if name == 'sorted' and len(args) == 1 and set(kwargs) <= {'reverse'}:
+            it = self.iterate(args[0], node)
+            rev = kwargs.get('reverse', Const(False))
+            if it is not None and isinstance(rev, Const) and all(isinstance(x, Const) and isinstance(x.v, (int, float, str)) and not isinstance(x.v, bool) for x in it) \
+                    and len({type(x.v) is str for x in it}) <= 1:
+                return Tup(sorted(it, key=lambda c: c.v, reverse=bool(rev.v)), 'list')
+            return Unknown('sorted')
         if name in ('float', 'int', 'bool', 'abs', 'round', 'str', 'complex') and args and all(isinstance(a, Const) for a in args):
             try:
                 return Const({'float': float, 'int': int, 'bool': bool, 'abs': abs, 'round': round, 'str': str, 'complex': complex}[name](*[a.v for a in args]))
@@ -660,6 +707,7 @@ class Interp:
             src = args[0]
             if isinstance(src, DictV):
                 d.entries = list(src.entries)
+                d.open = src.open
             else:
                 pairs = self.iterate(src, node)
                 if pairs is None or not all(isinstance(p_, Tup) and len(p_.items) == 2 for p_ in pairs):
@@ -725,6 +773,8 @@ class Interp:
         if isinstance(v, Const) and isinstance(v.v, (tuple, list, str)):
             return [Const(x) for x in v.v]
         if isinstance(v, DictV):
+            if v.open:
+                return None
             return [k for k, _ in v.entries]
         return self.dom.iterate(v, node)
 
@@ -893,6 +943,9 @@ class Interp:
                 assigned.add(n.id)
         for a in assigned:
             frame.env[a] = Unknown('loop-carried %s' % a)
+        for n in walk_no_nested(st):
+            if isinstance(n, ast.Subscript) and isinstance(n.ctx, ast.Store) and isinstance(n.value, ast.Name) and isinstance(frame.env.get(n.value.id), DictV):
+                frame.env[n.value.id].open = True          # filled an unknown number of times under keys that are not followed
         if isinstance(st, ast.For):
             self.assign(st.target, Unknown('loop element'), frame, st)
         try:
@@ -946,6 +999,8 @@ class Interp:
             o = self.ev(target.value, frame)
             idx = self.ev_index(target.slice, frame)
             if isinstance(o, DictV):
+                if isinstance(idx, Unknown):
+                    o.open = True
                 o.set(idx, v)
             elif isinstance(o, Tup) and isinstance(idx, Const) and isinstance(idx.v, int) and -len(o.items) <= idx.v < len(o.items):
                 o.items[idx.v] = v
@@ -1377,7 +1432,14 @@ class Interp:
             v = o.get(idx)
             if v is None:
                 if isinstance(idx, Unknown):
+                    if getattr(o, 'default_factory', None) is not None:
+                        o.open = True
                     return Unknown('dict lookup with unknown key')
+                fac = getattr(o, 'default_factory', None)
+                if fac is not None and not (isinstance(fac, Const) and fac.v is None):
+                    v = self.call_value(fac, [], {}, node, None)          # a defaultdict fills the missing entry
+                    o.set(idx, v)
+                    return v
                 raise AbsRaise('KeyError', node)
             return v
         if isinstance(o, Tup):
